@@ -9,7 +9,7 @@ SERVER_CODES = {"Internal", "Unknown", "DataLoss", "Unavailable", "Unimplemented
 def c13(tier):
     ck = Check("C13", tier)
     binary = build_harness()
-    per = 60 if tier == "quick" else 3000
+    per = 60 if tier == "quick" else 8000
     cfg = write_cfg(["PerEndpoint = %d" % per])
     r = tlc("ApiReq", "r.cfg", files={"r.cfg": cfg}, extra=["-seed", str(seed())], workers=8)
     ck.add_tlc(r)
@@ -32,6 +32,12 @@ def c13(tier):
         ("grpc_check", {"style": "tuple", "namespace": "known", "object": "plain", "subject": "absent", "depth": "0"}),
         ("grpc_transact", {"shape": "null_element", "action": "insert", "namespace": "known", "subject": "id"}),
         ("grpc_transact", {"shape": "one", "action": "insert", "namespace": "known", "subject": "absent"}),
+        # more deltas in one request than any storage-side batch holds (1200)
+        ("rest_patch", {"body": "valid", "shape": "huge", "action": "delete", "namespace": "known", "subject": "id"}),
+        ("rest_patch", {"body": "valid", "shape": "huge", "action": "insert", "namespace": "known", "subject": "set"}),
+        ("grpc_transact", {"shape": "huge", "action": "delete", "namespace": "known", "subject": "id"}),
+        ("grpc_transact", {"shape": "huge", "action": "delete", "namespace": "known", "subject": "set"}),
+        ("grpc_transact", {"shape": "huge", "action": "insert", "namespace": "known", "subject": "id"}),
         ("rest_list", {"namespace": "known", "object": "absent", "relation": "absent", "subject": "absent", "page_size": "-5", "page_token": "absent"}),
         ("rest_list", {"namespace": "known", "object": "absent", "relation": "absent", "subject": "absent", "page_size": "absent", "page_token": "xyz"}),
         ("grpc_list", {"query": "new", "namespace": "known", "object": "absent", "subject": "absent", "page_size": "absent", "page_token": "xyz"}),
